@@ -9,6 +9,14 @@ pub mod nest;
 mod nester_jar;
 mod nests_mapper_run;
 
+/// Verification hooks, compiled only with the cargo feature `verif` (off by default). Add-only re-exports.
+#[cfg(feature = "verif")]
+pub mod verif {
+	pub use crate::nests_mapper_run::verif as mapper;
+	pub use crate::nester_jar::verif as jar;
+	pub use crate::nester_run::verif as run;
+}
+
 // TODO: doc
 pub fn nest_jar<Namespace>(remap: bool, src: &impl Jar, nests: Nests<Namespace>)
 		-> Result<ParsedJar<ClassRepr, Vec<u8>>> {
